@@ -96,6 +96,8 @@ def run(ctx):
                 st["agreed"] += 1
     except Exception as e:
         ctx.notes.append("harness: fallback-binary-only (%s)" % str(e)[:200])
+        ctx.violation("correspondence-mismatch", "the real functions could not be reached through the harness (#[path] inclusion of /repo/src): %s" % str(e)[:300], input={}, concrete=False,
+                      correspondence="harness build / run")
     # ---- a total beyond 2^53 (more than a binary64 holds exactly): many sparse files near the largest size the file system takes ----
     huge = os.path.join(ctx.scratch, "huge")
     os.makedirs(os.path.join(huge, "d"))
